@@ -1247,6 +1247,8 @@ func TestVerifC25(t *testing.T) {
 			}
 		}
 	}
+	// family T: byte stream per backend connection through the real Transport
+	c.transportFamily(&idx)
 	// connection histories
 	fills := []int{0, 1, 31, 32, 33, 64}
 	dists := []string{"one", "by16"}
